@@ -611,6 +611,7 @@ func hHMACPart(e *Exec, a []Value, what string) Value {
 	case "key":
 		ts = h.key
 	case "msg":
+		e.hmacSettle(h)
 		ts = h.msg
 	default:
 		ts = e.hmacDigest(h)
